@@ -28,7 +28,9 @@ pub static mut PROBED: bool = false;
 pub static mut PROBE_OK: bool = true;
 /// CRASH: type-erased pointer to the queue under test and the probe function
 pub static mut PROBE_Q: *const () = core::ptr::null();
-pub static mut PROBE_FN: Option<fn(*const ()) -> bool> = None;
+pub static mut PROBE_FN: Option<fn(*const (), u8) -> bool> = None;
+/// CRASH: a second queue taking part in the operation (`append`), same type
+pub static mut PROBE_Q2: *const () = core::ptr::null();
 
 #[inline(always)]
 pub fn user_callback(kind: u8) {
@@ -43,7 +45,10 @@ pub fn user_callback(kind: u8) {
         if MODE == MODE_CRASH && CALLS == CRASH_AT {
             PROBED = true;
             if let Some(f) = PROBE_FN {
-                PROBE_OK = f(PROBE_Q);
+                PROBE_OK = f(PROBE_Q, kind);
+                if !PROBE_Q2.is_null() {
+                    PROBE_OK &= f(PROBE_Q2, kind);
+                }
             }
         }
         #[cfg(not(kani))]
@@ -64,6 +69,7 @@ pub fn reset() {
         PROBED = false;
         PROBE_OK = true;
         PROBE_Q = core::ptr::null();
+        PROBE_Q2 = core::ptr::null();
         PROBE_FN = None;
     }
 }
